@@ -97,6 +97,8 @@ def _apply(rig, act):
         rig.dup(m)
     elif a == "Deliver":
         rig.deliver(m)
+    elif a == "LateDeliver":
+        rig.deliver(m, kind="late")
     elif a == "Timeout":
         rig.timeout()
     else:
@@ -113,6 +115,13 @@ def _replay_walk(ctx, variant, N, S, R, walk, init_state):
     steps = 0
     try:
         for i, (act, to) in enumerate(walk):
+            if (variant == "sync" and act["a"] == "Deliver" and i + 1 < len(walk) and walk[i + 1][0]["a"] == "Deliver"
+                    and rng.random() < 0.5):
+                # two datagrams back to back in the socket's buffer: the engine thread meets the second
+                # one in its very next iteration (sequential semantics must still hold)
+                rig.enqueue(act["m"])
+                steps += 1
+                continue
             if act["a"] == "ClientSend":
                 pass        # the code sends by itself; compared through `sent`
             else:
@@ -241,6 +250,13 @@ def _scenario(variant, N, S, R, start, length, rng, p_drop, p_dup, p_timeout, sh
                 elif x < p_drop + p_dup + p_timeout:
                     rig.timeout()
                     nfaults += 1
+                elif hasattr(rig, "enqueue") and len(vs) >= 2 and rng.random() < 0.35:
+                    # two datagrams reach the socket back to back (a duplicate right behind its original
+                    # when there is one): the engine thread finds the second in its very next iteration
+                    same = [o for o in vs if o is not d and o["m"] == d["m"]]
+                    d2 = same[0] if same else rng.choice([o for o in vs if o is not d])
+                    rig.enqueue(d["m"])
+                    rig.deliver(d2["m"])
                 else:
                     rig.deliver(d["m"])
                 continue
@@ -248,6 +264,19 @@ def _scenario(variant, N, S, R, start, length, rng, p_drop, p_dup, p_timeout, sh
         rig.collect()
         if not rig.done() and rig.sent <= R + 3:
             raise env.MachineryError("transfer scenario did not terminate")
+        if rig.done():
+            # stragglers: what is still in flight (duplicates, segments of abandoned attempts) arrives after
+            # the transfer has returned - for the blocking stack back to back in the socket's buffer
+            late = [d for d in rig.bag if d["m"]["t"] == "V"]
+            rng.shuffle(late)
+            for j, d in enumerate(late[:4]):
+                if hasattr(rig, "enqueue") and j + 1 < len(late[:4]):
+                    rig.enqueue(d["m"], kind="late")
+                else:
+                    rig.deliver(d["m"], kind="late")
+            if late:
+                rig.collect()
+                rig.log.append({"k": "final", "ok": bool(rig.ok()), "cli": rig.classes(), "blen": len(rig.block()), "sent": rig.sent})
         log = {"req": {"start": start, "len": length}, "ev": rig.log, "variant": variant,
                "faults": nfaults, "ok": bool(rig.ok()), "sent": rig.sent}
         return log
